@@ -903,6 +903,11 @@ class EngineC13:
         f_end = self._estimate(M, sample, fh)
         if np.isnan(trace).any() or np.isnan(f_end) or np.isnan(f_start):
             res.bump("probe:nan_estimate")
+            # An estimate that is not a number is not "better" than anything: from a starting guess with a finite
+            # estimate the solver must not hand back a model whose estimate is NaN (the ordering clauses below are
+            # left to the runs without NaN, where they are unambiguous)
+            if np.isfinite(f_start) and np.isnan(f_end):
+                return V("result_no_worse_than_start", f"the returned model's estimate on the function sample is NaN, the starting guess's was {f_start!r} (trace {trace.tolist()})")
         else:
             tol = lambda v: 1e-9 * (1.0 + abs(v))  # noqa: E731
             if abs(trace[0] - f_start) > tol(f_start) and np.isfinite(f_start):
